@@ -3,6 +3,7 @@
 package proxy
 
 import (
+	"errors"
 	"container/list"
 	"context"
 	"net"
@@ -1336,5 +1337,32 @@ func VerifC02_ReplyCarriesItsOwnBody() {
 	}
 	verif.Assert(sender.headers == 1, "the client must get exactly one reply")
 	verif.Assert(sender.body == want, "the reply's body is not the body of the exchange its header comes from (bytes of an abandoned attempt's response, or a body lost)")
+	verif.Cover("end")
+}
+
+// VerifC03_DecodeError: the stream layer hands the proxy a request that its
+// codec could only half decode (a request frame together with a decode error:
+// xprotocol's handleError creates the stream and calls OnDecodeError instead
+// of OnReceive). That request, too, ends exactly once: the client gets one
+// error reply, the stream is cleaned up and its gauge released - it is not
+// left in the proxy for ever without an answer.
+func VerifC03_DecodeError() {
+	verif.Switches(0)
+	ds, sender, pool, p, ctx := zzMachine(0, false)
+	pool.scripted = true
+	active0 := p.stats.DownstreamRequestActive.Count()
+	kind := []string{types.CodecException, types.DeserializeException, "other"}[verif.Choose("error", 3)]
+	done := false
+	verif.MustFinish(400000, "OnDecodeError never returns")
+	go func() {
+		ds.OnDecodeError(ctx, errors.New(kind), protocol.CommonHeader{})
+		done = true
+	}()
+	verif.Settle()
+	verif.Finished()
+	verif.Assert(done, "OnDecodeError did not return")
+	verif.Assert(pool.calls == 0, "a request that could not be decoded was sent upstream")
+	verif.Assert(sender.headers == 1, "a request that could not be decoded gets no error reply (it stays in the proxy, unanswered)")
+	verif.Assert(p.stats.DownstreamRequestActive.Count() == active0-1, "a request that could not be decoded is never cleaned up (DownstreamRequestActive not released)")
 	verif.Cover("end")
 }
